@@ -1829,10 +1829,12 @@ func isLoopHeader(b *ssa.BasicBlock) bool {
 
 // atomString renders a branch condition term in the evaluator's vocabulary.
 func (w *WEval) atomString(t *T) string {
+	s := t.String()
 	if t.V != nil {
-		return w.term(t.V)
+		s = w.term(t.V)
 	}
-	return t.String()
+	registerAtom(s, t)
+	return s
 }
 
 // convPreservesBits: an integer conversion after which the little/big-endian bytes of the
